@@ -260,7 +260,37 @@ fn ctl_programs() -> usize {
         ("x = (null || { return 4 })\n.", Ok("4")),
         ("x = (true && { abort })\n.", Err("ABORT")),
         ("x = { .a = 1; abort }\n.", Err("ABORT")),
+    ]) + expect_events("ctl_programs", &[
+        // nothing is written once `return` / `abort` has been raised
+        (".n = 7\n.n, .err = to_int({ if is_null(.v) { return \"skipped\" }; .v })\n.after = true\n\"done\"", Ok("\"skipped\""), "{ \"n\": 7 }"),
+        (".n = 7\n.n, .err = to_int({ abort })\n.after = true", Err("ABORT"), "{ \"n\": 7 }"),
+        (".n = 7\n.n = to_int!({ return 1 })\n.after = true", Ok("1"), "{ \"n\": 7 }"),
+        (".n = 7\n.n = (5 + { return 1 }) ?? 0\n.after = true", Ok("1"), "{ \"n\": 7 }"),
+        (".n = 7\n.n = [1, { return 2 }]\n.after = true", Ok("2"), "{ \"n\": 7 }"),
+        (".n = 7\nif ({ return 3 }) { .n = 1 } else { .n = 2 }\n.after = true", Ok("3"), "{ \"n\": 7 }"),
     ])
+}
+
+fn expect_events(unit: &str, cases: &[(&str, Result<&str, &str>, &str)]) -> usize {
+    let mut bad = 0;
+    for (src, want, want_event) in cases {
+        let fns = vrl::stdlib::all();
+        let Ok(res) = compile(src, &fns) else { bad += 1; fail(unit, src, "compiles", "compile error"); continue };
+        let mut target = TargetValue { value: Value::Object(BTreeMap::new()), metadata: Value::Object(BTreeMap::new()), secrets: Secrets::default() };
+        let mut rt = Runtime::default();
+        let got = match rt.resolve(&mut target, &res.program, &TimeZone::default()) {
+            Ok(v) => Ok(v.to_string()),
+            Err(Terminate::Abort(_)) => Err("ABORT".to_string()),
+            Err(Terminate::Error(_)) => Err("ERROR".to_string()),
+        };
+        let ok = match (&got, want) { (Ok(g), Ok(w)) => g == w, (Err(g), Err(w)) => g == w, _ => false };
+        let event = target.value.to_string();
+        if !ok || event != *want_event {
+            bad += 1;
+            fail(unit, src, &format!("{want:?} with the event left as {want_event}"), &format!("{got:?} with the event {event}"));
+        }
+    }
+    bad
 }
 
 fn format_int() -> usize {
@@ -1254,8 +1284,148 @@ fn string_laws() -> usize {
     bad
 }
 
+const WATCHDOG_PROGRAMS: &[&str] = &[
+    "zip([])", "zip([[]])", "zip([[], [1]])", "zip([[1, 2], [3]])", "zip([1, 2], [])",
+    "sieve(\"vector.dev/lowerUPPER\", r'[a-z]*')", "sieve(\"\", r'x?')", "sieve(\"abc\", r'')", "sieve(\"abc\", r'[a-z]')", "sieve(\"a-b\", r'[a-z]', replace_single: \"\", replace_repeated: \"\")",
+    "replace(\"abc\", r'', \"x\")", "replace(\"abc\", r'x*', \"-\")", "replace(\"abc\", \"\", \"x\")", "replace(\"abc\", r'b', \"x\", count: -1)", "replace(\"abc\", r'b', \"x\", count: 0)",
+    "split(\"abc\", r'')", "split(\"abc\", \"\")", "split(\"abc\", r'x*', limit: 0)", "split(\"a,b\", \",\", limit: -1)",
+    "find(\"abc\", r'')", "find(\"abc\", r'x*', from: 10)", "find(\"abc\", \"\", from: -1)",
+    "parse_regex_all!(\"abc\", r'')", "parse_regex_all!(\"abc\", r'(?P<a>x*)')", "match_any(\"abc\", [r''])",
+    "chunks!(\"abcdef\", 1)", "chunks(\"abc\", int!(.n)) ?? \"err\"",
+    "truncate(\"abc\", -1)", "slice!(\"abc\", -1, -9223372036854775807)", "\"ab\" * 0", "\"ab\" * -9223372036854775807",
+    "format_int!(-9223372036854775807 - 1, 2)", "format_number(1.5, -9223372036854775807)", "format_number(1, 0, grouping_separator: \"\")",
+    "flatten({\"a\": {\"b\": {}}})", "unflatten({\"a.b\": 1, \"a\": 2})", "unflatten({\"\": 1})", "unflatten({\"a..b\": 1})", "compact([[], [[]]])", "unique([])",
+    "strip_whitespace(\"\")", "join!([], \"\")", "contains(\"\", \"\")", "starts_with(\"\", \"\")", "ends_with(\"a\", \"\")",
+    "parse_key_value!(\"\")", "parse_key_value!(\"a=\", field_delimiter: \"\") ", "parse_key_value(\"a=b\", key_value_delimiter: \"\") ?? \"err\"", "parse_csv!(\"\")", "parse_csv!(\"a,b\", delimiter: \",\")",
+    "encode_key_value({})", "encode_logfmt({\"a\": \"\"})", "parse_json!(\"[]\", max_depth: 1)", "parse_duration!(\"0s\", \"ns\")",
+    "push([], [])", "append([], [])", "keys({})", "values({})", "length(\"\")", "pop([])", "get!({}, [])", "set!({}, [], 1)", "remove!({}, [])", "set!([], [5], 1)",
+    "for_each([]) -> |_i, _v| { null }", "map_keys({}) -> |k| { k }", "filter([]) -> |_i, _v| { true }", "replace_with(\"abc\", r'') -> |m| { \"x\" }", "replace_with(\"abc\", r'x*', count: 0) -> |m| { \"y\" }",
+    "match_datadog_query({}, \"\")", "match_datadog_query({\"a\": 1}, \"*\")", "parse_grok(\"\", \"%{GREEDYDATA:a}\") ?? \"err\"",
+    "redact(\"\", filters: [r''])", "redact(\"abc\", filters: [r'x*'])", "camelcase(\"\")", "snakecase(\"__\")", "basename!(\"\")", "dirname!(\"\")", "split_path(\"\")",
+    "ip_subnet!(\"1.2.3.4\", \"/0\")", "ip_cidr_contains!(\"0.0.0.0/0\", \"1.2.3.4\")", "to_string(to_float!(\"1e300\"))", "mod(5, -1)", "abs(-9223372036854775807 - 1)", "round(1.5, precision: -400)", "round(1.5, precision: 400)", "ceil(1.5, precision: 400)", "floor(-1.5, precision: -400)",
+];
+
+/// C05 bounded stand-in: scripted stdlib calls with empty / zero / negative / extreme arguments, each compiled
+/// and run in a child process under a 10 s watchdog and a 2 GB address-space limit: the call must end
+/// (with a value or an error), not hang, not grow without bound, not panic.
+fn stdlib_watchdog() -> usize {
+    let exe = std::env::current_exe().expect("own path");
+    let mut bad = 0;
+    for (i, src) in WATCHDOG_PROGRAMS.iter().enumerate() {
+        let mut child = std::process::Command::new("sh")
+            .arg("-c").arg(format!("ulimit -v 2000000; exec {} stdlib_watchdog_case {}", exe.display(), i))
+            .stderr(std::process::Stdio::piped()).stdout(std::process::Stdio::null()).spawn().expect("spawn");
+        let t0 = std::time::Instant::now();
+        let status = loop {
+            match child.try_wait().expect("wait") {
+                Some(st) => break Some(st),
+                None if t0.elapsed().as_secs() >= 10 => { let _ = child.kill(); let _ = child.wait(); break None; }
+                None => std::thread::sleep(std::time::Duration::from_millis(10)),
+            }
+        };
+        match status {
+            None => { bad += 1; fail("stdlib_watchdog", src, "ends within 10 s", "still running after 10 s (killed)"); }
+            Some(st) if st.code() == Some(0) => {}
+            Some(st) if st.code() == Some(3) => { bad += 1; fail("stdlib_watchdog", src, "witness program compiles", "compile error (fix the witness list)"); }
+            Some(st) => {
+                bad += 1;
+                let mut err = String::new();
+                if let Some(mut e) = child.stderr.take() { use std::io::Read; let _ = e.read_to_string(&mut err); }
+                let line = err.lines().find(|l| l.contains("panicked") || l.contains("memory allocation")).unwrap_or("").to_string();
+                fail("stdlib_watchdog", src, "ends with a value or an error", &format!("process ended with {st}: {line}"));
+            }
+        }
+    }
+    eprintln!("stdlib_watchdog: {} calls", WATCHDOG_PROGRAMS.len());
+    bad
+}
+
+/// C04 bounded stand-in for the lexer / parser / diagnostics renderer (no contract reaches them): every
+/// source text over a 13-letter alphabet up to length 5, and every string / raw string / regex /
+/// timestamp literal whose content is such a text up to length 5 (4 for the prefixed forms), is compiled;
+/// diagnostics are rendered; accepted programs are run.  A panic anywhere is a failing case.
+fn compile_small_sources() -> usize {
+    let alphabet = ['"', '\\', '\n', '\u{a0}', 'a', '.', '=', ' ', '{', '\'', '}', '(', '0'];
+    let mut texts: Vec<String> = vec![String::new()];
+    let mut frontier = vec![String::new()];
+    for _ in 0..5 {
+        let mut next = vec![];
+        for s in &frontier { for c in alphabet { let mut t = s.clone(); t.push(c); next.push(t); } }
+        texts.extend(next.iter().cloned());
+        frontier = next;
+    }
+    let fns = vrl::stdlib::all();
+    let mut bad = 0;
+    let mut n = 0usize;
+    let prev = std::panic::take_hook();
+    std::panic::set_hook(Box::new(|_| {}));
+    let mut check = |src: &str, bad: &mut usize| {
+        let r = std::panic::catch_unwind(std::panic::AssertUnwindSafe(|| {
+            match compile(src, &fns) {
+                Ok(res) => {
+                    let mut target = TargetValue { value: Value::Object(BTreeMap::new()), metadata: Value::Object(BTreeMap::new()), secrets: Secrets::default() };
+                    let _ = Runtime::default().resolve(&mut target, &res.program, &TimeZone::default());
+                }
+                Err(diags) => { let _ = vrl::diagnostic::Formatter::new(src, diags).to_string(); }
+            }
+        }));
+        if r.is_err() {
+            *bad += 1;
+            if *bad <= 8 { fail("compile_small_sources", &format!("{src:?}"), "compiles or is rejected with renderable diagnostics", "PANIC"); }
+        }
+    };
+    for t in &texts {
+        n += 2;
+        check(t, &mut bad);
+        check(&format!("\"{t}\""), &mut bad);
+        if t.chars().count() <= 4 {
+            n += 4;
+            check(&format!("s'{t}'"), &mut bad);
+            check(&format!("r'{t}'"), &mut bad);
+            check(&format!("t'{t}'"), &mut bad);
+            check(&format!(".a = \"{t}\"\n.a"), &mut bad);
+        }
+    }
+    std::panic::set_hook(prev);
+    eprintln!("compile_small_sources: {n} source texts");
+    bad
+}
+
+/// C25 witness: to_unix_timestamp(from_unix_timestamp(v, unit), unit) == v wherever from_unix_timestamp accepts v,
+/// at the extremes of i64 and around second / sub-second boundaries, for all four units.
+fn unix_timestamp_roundtrip() -> usize {
+    let mut bad = 0;
+    let mut checked = 0;
+    let edges: Vec<i64> = vec![i64::MIN, i64::MIN + 1, -9_223_372_036_854_775_000, -9_223_372_036_000_000_001, -9_223_372_036_000_000_000, -9_223_372_035_999_999_999,
+        -1_000_000_001, -1_000_000_000, -999_999_999, -1_000_001, -1_000_000, -1001, -1000, -999, -2, -1, 0, 1, 2, 999, 1000, 1001, 999_999, 1_000_000, 999_999_999, 1_000_000_000, 1_000_000_001,
+        253_402_300_799, 253_402_300_800, 8_210_266_876_799, 8_210_266_876_800, 9_223_372_036_000_000_000, 9_223_372_036_854_775_000, i64::MAX - 1, i64::MAX];
+    for unit in ["seconds", "milliseconds", "microseconds", "nanoseconds"] {
+        let from = Prog::new(&format!("from_unix_timestamp!(int!(.v), unit: \"{unit}\")"));
+        let round = Prog::new(&format!("to_unix_timestamp(from_unix_timestamp!(int!(.v), unit: \"{unit}\"), unit: \"{unit}\")"));
+        for v in &edges {
+            if from.run(obj(vec![("v", (*v).into())])).is_err() { continue }
+            checked += 1;
+            let got = round.run(obj(vec![("v", (*v).into())]));
+            if got != Ok(Value::Integer(*v)) {
+                bad += 1;
+                if bad <= 10 { fail("unix_timestamp_roundtrip", &format!("to_unix_timestamp(from_unix_timestamp({v}, \"{unit}\"), \"{unit}\")"), &v.to_string(), &format!("{got:?}")); }
+            }
+        }
+    }
+    eprintln!("unix_timestamp_roundtrip: {checked} accepted values");
+    bad
+}
+
 fn main() {
     let unit = std::env::args().nth(1).unwrap_or_default();
+    if unit == "stdlib_watchdog_case" {
+        let i: usize = std::env::args().nth(2).and_then(|s| s.parse().ok()).unwrap_or(0);
+        let code = match run_vrl(WATCHDOG_PROGRAMS[i], Value::Object(BTreeMap::new())) {
+            Err(e) if e.starts_with("compile error") => { eprintln!("{e}"); 3 }
+            _ => 0,
+        };
+        std::process::exit(code);
+    }
     if unit == "format_number_case" {
         let i: usize = std::env::args().nth(2).and_then(|s| s.parse().ok()).unwrap_or(0);
         std::process::exit(format_number_case(i) as i32);
@@ -1273,6 +1443,9 @@ fn main() {
         "op_typing" => op_typing(),
         "string_arith" => string_arith(),
         "collection_laws" => collection_laws(),
+        "unix_timestamp_roundtrip" => unix_timestamp_roundtrip(),
+        "compile_small_sources" => compile_small_sources(),
+        "stdlib_watchdog" => stdlib_watchdog(),
         "string_laws" => string_laws(),
         "kind_crud" => kind_crud(0),
         "kind_crud_neg_insert" => kind_crud(1),
